@@ -625,7 +625,22 @@ async fn check_c05(
                 }
             }
         }
+        // byte-identical events committed by several devices count as one event with
+        // no single timestamp: last-writer-wins is undefined for the secrets they touch
+        let mut owners: BTreeMap<[u8; 32], BTreeSet<usize>> = BTreeMap::new();
+        for e in edits {
+            for recs in e.appended.values() {
+                for r in recs {
+                    owners.entry(r.commit).or_default().insert(e.device);
+                }
+            }
+        }
         for ((f, id), mut ops) in by_secret {
+            let ambiguous = ops.iter().any(|(_, e)| e.appended.get(&LogId::Folder(f)).map(|rs| rs.iter().any(|r| owners.get(&r.commit).map(|o| o.len()).unwrap_or(0) > 1)).unwrap_or(false));
+            if ambiguous {
+                rep.count("lww_skipped_identical_events", 1);
+                continue;
+            }
             ops.sort_by_key(|(t, _)| *t);
             let last_t = ops.last().unwrap().0;
             if ops.iter().filter(|(t, _)| *t == last_t).count() > 1 {
